@@ -631,6 +631,25 @@ fn retrace(sink: &mut Sink, o: &Opts) {
         if focus == "all" || focus == "frame" || focus == "params" {
             qs.extend(gen::targeted(src, 60));
         }
+        if wild && sid == 0 {
+            for text in gen::tricky_texts() {
+                let out = crate::traces::remap_text(src, &text);
+                sink.emit(json!({"t": "call", "sid": sid + 1, "api": "remap_stacktrace", "arg": enc::s(&text),
+                                 "status": {"mapper": status_of(&out["mapper"]), "cache": status_of(&out["cache"])}}));
+                let t2 = text.clone();
+                let st = match guarded(move || {
+                    let _ = proguard::StackTrace::try_parse(t2.as_bytes());
+                    for l in t2.lines() {
+                        let _ = proguard::StackFrame::try_parse(l.as_bytes());
+                        let _ = proguard::Throwable::try_parse(l.as_bytes());
+                    }
+                }) {
+                    Ok(()) => "ok",
+                    Err(_) => "panic",
+                };
+                sink.emit(json!({"t": "call", "sid": sid + 1, "api": "try_parse", "arg": enc::s(&text), "status": {"mapper": st, "cache": st}}));
+            }
+        }
         if wild {
             // the remaining public entry points with arbitrary Unicode text; only completion matters here
             for _ in 0..6 {
@@ -946,7 +965,8 @@ fn cache(sink: &mut Sink, o: &Opts) {
                     for field in 0..4 {
                         let off = 8 + 4 * field;
                         let cur = get_u32(&bytes, off);
-                        for v in [0, cur.wrapping_sub(1), cur + 1, cur + 2, 1 << 20, 1 << 31, u32::MAX - 1, u32::MAX] {
+                        for v in [0, cur.wrapping_sub(1), cur + 1, cur + 2, 1 << 20, 1 << 31, u32::MAX - 1, u32::MAX,
+                                  1 << 30, cur.wrapping_add(1 << 30), cur.wrapping_add(1 << 31), 0x2492_4925, 0x1C71_C71D] {
                             if v != cur {
                                 let mut e = bytes.clone();
                                 put_u32(&mut e, off, v);
@@ -1282,6 +1302,9 @@ fn probe_cache(buf: &[u8], queries: &[(String, String, usize, String)]) -> Vec<V
                 let _ = c.remap_stacktrace_typed(&tr);
             }
             let _ = c.deobfuscate_signature(&format!("(L{};I)L{};", class.replace('.', "/"), class));
+            for t in gen::tricky_texts().iter().step_by(7) {
+                let _ = c.remap_stacktrace(t);
+            }
             let _ = format!("{:?}", *c);
             (prov, n)
         });
@@ -1531,6 +1554,9 @@ fn xver(sink: &mut Sink, o: &Opts) {
             qs.push(json!({"t": "sig", "sig": enc::s(&gen::descriptor(&mut rng, &uni))}));
         }
         qs.extend(gen::targeted(src, 120));
+        for class in uni.classes.iter().take(12) {
+            qs.push(json!({"t": "sig", "sig": enc::s(&format!("(L{};[L{};)L{};", class.replace('.', "/"), class.replace('.', "/"), class.replace('.', "/")))}));
+        }
         // systematic: every (class, method, parameter string) of the first few names
         for class in uni.classes.iter().take(6) {
             for method in uni.methods.iter().take(6) {
@@ -1690,6 +1716,10 @@ fn threads(sink: &mut Sink, o: &Opts) {
     let cfg = gen::MapCfg { max_classes: 5, max_members: 7, wild: false, noise: true };
     for _ in 0..o.n {
         sessions.push(gen::mapping(&mut rng, &cfg));
+    }
+    if o.n > 0 {
+        // (small ones only: every thread asks every query of every session)
+        sessions.extend(gen::crafted().into_iter().filter(|m| m.len() < 1500));
     }
     for (sid, src) in sessions.iter().enumerate() {
         sink.emit(json!({"t": "load", "sid": sid + 1, "src": enc::bytes(src)}));
